@@ -144,6 +144,7 @@ func (g *Gen) randBatch(name string, cfg batchCfg) *BatchSpec {
 	for _, f := range cfg.fields {
 		dvFields[f] = g.chance(0.5)
 	}
+	idDV := g.chance(0.15)
 	for i := 0; i < nd; i++ {
 		id := []byte(fmt.Sprintf("%s-%d", name, i))
 		if cfg.dupIDs && i > 0 && g.chance(0.3) {
@@ -154,6 +155,9 @@ func (g *Gen) randBatch(name string, cfg batchCfg) *BatchSpec {
 		}
 		d := DocSpec{ID: id, Plain: g.chance(0.3)}
 		idf := FieldSpec{Kind: "fld", Name: "_id", Typ: 't', Stored: true, Len: 1, Val: id, Toks: []TokSpec{{Term: id, Freq: 1}}}
+		if idDV {
+			idf.DV = true // `_id` indexed with doc values is legitimate (not bleve's default)
+		}
 		nf := g.r.Intn(cfg.maxFields + 1)
 		var flds []FieldSpec
 		var names []string
